@@ -259,6 +259,40 @@ func genC05(g *gen) {
 			hmu.Unlock()
 		})
 	}
+	// keys and signatures made OUTSIDE the library (independent reference key generation and signer, many seeds): valid by
+	// the specification, so Verify and Open must accept them — a verifier that expands the matrix or decodes the key
+	// differently from the specification for some keys only is found here, although its own signatures still verify
+	{
+		nr := 1500
+		if g.thorough {
+			nr = 20000
+		}
+		var rmu sync.Mutex
+		parallel(nr, func(i int) {
+			var seed [48]byte
+			binary.LittleEndian.PutUint64(seed[:], uint64(i))
+			binary.LittleEndian.PutUint64(seed[16:], uint64(g.seed))
+			xi := make([]byte, 32)
+			sha3.ShakeSum256(xi, seed[:])
+			rk := refKeyFull(xi)
+			m := []byte{byte(i), byte(i >> 8), 0x5a}
+			rs, _, _ := refSign(rk, m)
+			if rs == nil {
+				return
+			}
+			var rpk [2592]byte
+			var rsig [4595]byte
+			copy(rpk[:], rk.pk)
+			copy(rsig[:], rs)
+			v := dilithium.Verify(m, rsig, &rpk)
+			o := dilithium.Open(append(append([]byte{}, rs...), m...), &rpk)
+			line := fmt.Sprintf("dl.verify %s %s %s", hx(m), hx(rs), hx(rk.pk))
+			rmu.Lock()
+			g.check(v, "reference-signature-accepted", "a signature made by the independent reference signer under the reference key for seed "+hx(seed[:])+" (valid by the specification) is rejected by Verify", line)
+			g.check(v == (o != nil), "open-iff-verify", "Verify and Open disagree on a reference signature", line)
+			rmu.Unlock()
+		})
+	}
 	hoff := 32 + 7*640
 	// ---- hint-section edits that isolate one decoder check ----
 	g.note("hint section edits")
@@ -596,6 +630,9 @@ func genC07(g *gen) {
 	for i := 0; i < 6; i++ {
 		g.op("dl.challenge %s", hx(g.bytes(32)))
 	}
+	for _, cs := range loadCorpus("challenge-long")["challenge-long"] { // expansions that reject unusually many candidates
+		g.op("dl.challenge %s", hx(cs))
+	}
 	// seeds whose matrix expansion meets t == q exactly cannot be crafted; a long random sweep of the sampler itself:
 	if g.thorough {
 		for i := 0; i < 200; i++ {
@@ -805,6 +842,39 @@ func genC12(g *gen) {
 			g.op("dl.invntt %s", polyStr(hb[:]))
 			g.op("dl.pw %s %s", polyStr(ha[:]), polyStr(hb[:]))
 		}
+	}
+	// ---- pointwise product = montgomeryReduce(a·b) in every slot, also for the operand values a shortcut would single out
+	// (0, ±1, ±2, q, q±1, powers of two, the extremes): all pairs of them, and random operands around them
+	{
+		special := []int32{0, 1, -1, 2, -2, dQ, dQ - 1, dQ + 1, -dQ, 1 << 16, 1 << 23, 1 << 30, -(1 << 31), 1<<31 - 1, 58728449, 4193792, 25847, 8380416}
+		var pa, pb [256]int32
+		okAll := true
+		var firstBad string
+		for round := 0; round < 8 && okAll; round++ {
+			for i := 0; i < 256; i++ {
+				pa[i] = special[g.rng.Intn(len(special))]
+				pb[i] = special[g.rng.Intn(len(special))]
+				if round%2 == 1 {
+					pa[i] = int32(g.rng.Uint32()) >> uint(g.rng.Intn(9))
+				}
+				if round >= 4 && i%3 == 0 {
+					pb[i] = int32(g.rng.Uint32())>>8 - dQ
+				}
+			}
+			c := dilithium.VerifPointwise(&pa, &pb)
+			for i := 0; i < 256; i++ {
+				want := dilithium.VerifMontgomeryReduce(int64(pa[i]) * int64(pb[i]))
+				// and the defining congruence, independently: c·2^32 ≡ a·b (mod q)
+				cong := ((int64(c[i])%dQ)*((int64(1)<<32)%dQ)-(int64(pa[i])%dQ)*(int64(pb[i])%dQ))%dQ == 0
+				if c[i] != want || !cong {
+					okAll = false
+					firstBad = fmt.Sprintf("a=%d b=%d: got %d, montgomeryReduce(a·b)=%d", pa[i], pb[i], c[i], want)
+					break
+				}
+			}
+		}
+		g.check(okAll, "pointwise-spec", "polyPointWiseMontgomery is not montgomeryReduce(a_i·b_i) in some slot: "+firstBad, "dl.pw "+polyStr(pa[:])+" "+polyStr(pb[:]))
+		g.op("dl.pw %s %s", polyStr(pa[:]), polyStr(pb[:]))
 	}
 	// ---- norm check = comparison of the centred absolute value ----
 	g.note("norm check")
